@@ -470,7 +470,7 @@ def token_spans(text):
 def corrupt(text, rng):
     """Returns (kind, corrupted text) or None. Every edit makes the text malformed under the documented grammar."""
     spans = token_spans(text)
-    kinds = ["del(", "dup(", "del)", "del[", "del]", "dup[", "dup]", "dbl,", "stray=", "stray)", "delname", "del=arg", "delquote", "mixlist", "mixlist"]
+    kinds = ["del(", "dup(", "del)", "del[", "del]", "dup[", "dup]", "dbl,", "stray=", "stray)", "delname", "del=arg", "delquote", "mixlist", "mixlist", "lead,", "lead,", "only,"]
     rng.shuffle(kinds)
     for kind in kinds:
         if kind in ("del(", "del)", "del[", "del]"):
@@ -483,6 +483,12 @@ def corrupt(text, rng):
             if c:
                 s = rng.choice(c)
                 return kind, text[:s[1]] + kind[3] + text[s[1]:]
+        if kind in ("lead,", "only,"):
+            # a comma where an argument list / a list begins: directly after '(' or '[' (blanks and line breaks in between)
+            c = [s for s in spans if s[0] in ("(" if kind == "only," else "([")]
+            if c:
+                s = rng.choice(c)
+                return kind, text[:s[2]] + rng.choice([",", " ,", "\n  ,", ", "]) + text[s[2]:]
         if kind == "dbl,":
             c = [s for s in spans if s[0] == ","]
             if c:
